@@ -80,4 +80,64 @@ def Rx.bolAnchored : Rx → Bool
   | .look false false 1 (.cls false [.chr 10]) => true        -- `(?<=\n)`
   | _ => false
 
+/-- union of two optional finite character sets -/
+def optUnion : Option (List Nat) → Option (List Nat) → Option (List Nat)
+  | some a, some b => some (a ++ b)
+  | _, _ => none
+
+def ClsItem.expand : ClsItem → Option (List Nat)
+  | .chr c => some [c]
+  | .range lo hi => if hi - lo ≤ 64 then some (List.range' lo (hi + 1 - lo)) else none
+  | .cat _ _ => none
+
+def expandItems : List ClsItem → Option (List Nat)
+  | [] => some []
+  | it :: rest => optUnion it.expand (expandItems rest)
+
+/-- A *finite* over-approximation of the characters a non-empty match can start with, when there is one
+(`none` = unbounded: negated class, `.`, category, back-reference). -/
+def Rx.firstChars : Rx → Option (List Nat)
+  | .eps => some []
+  | .fail => some []
+  | .cls false items => expandItems items
+  | .cls true _ => none
+  | .any _ => none
+  | .seq a b => if a.mayBeEmpty then optUnion a.firstChars b.firstChars else a.firstChars
+  | .alt a b => optUnion a.firstChars b.firstChars
+  | .rep r _ _ _ => r.firstChars
+  | .grp _ r => r.firstChars
+  | .backref _ => none
+  | .look _ _ _ _ => some []
+  | .bos | .bol | .eos | .eol | .eosStrict | .wordb | .nwordb => some []
+
+def optAdd : Option Nat → Option Nat → Option Nat
+  | some a, some b => some (a + b)
+  | _, _ => none
+
+def optMax : Option Nat → Option Nat → Option Nat
+  | some a, some b => some (max a b)
+  | _, _ => none
+
+/-- An upper bound on the number of newline characters a match can contain (`none` = unbounded / unknown). -/
+def Rx.maxNewlines : Rx → Option Nat
+  | .eps | .fail => some 0
+  | .cls false items => some (if items.any (fun it => it.test ⟨fun _ => false, fun c => c == 10, fun _ => false⟩ 10) then 1 else 0)
+  | .cls true items => some (if items.any (fun it => it.test ⟨fun _ => false, fun c => c == 10, fun _ => false⟩ 10) then 0 else 1)
+  | .any dotall => some (if dotall then 1 else 0)
+  | .seq a b => optAdd a.maxNewlines b.maxNewlines
+  | .alt a b => optMax a.maxNewlines b.maxNewlines
+  | .rep r _ (some m) _ => r.maxNewlines.map (· * m)
+  | .rep r _ none _ => match r.maxNewlines with | some 0 => some 0 | _ => none
+  | .grp _ r => r.maxNewlines
+  | .backref _ => none
+  | .look _ _ _ _ => some 0
+  | .bos | .bol | .eos | .eol | .eosStrict | .wordb | .nwordb => some 0
+
+/-- The stop characters of the speedup plugin's text rule, read off its regenerated regex
+`[\s\S]+?(?=[stops]|…|$)`: the items of the first alternative of the look-ahead. -/
+def Rx.speedupStops : Rx → Option (List Nat)
+  | .seq (.rep (.cls false [.cat false .space, .cat true .space]) 1 none false) (.look true false _ (.alt (.cls false items) _)) =>
+      expandItems items
+  | _ => none
+
 end Mistune
